@@ -19,7 +19,8 @@ func init() {
 			"C10.b DOM: snapshot.Restore returns success only through the equal edges of the database comparison and of every WAL comparison, and replays WALs only after the loop that verified all of them. " +
 			"C10.c TABLE: every length-prefix encode/decode in package snapshot uses binary.BigEndian with a HeaderSizeLen-sized prefix (streamer, path streamer, sink header parsing, Restore agree). " +
 			"C10.d TABLE: NodeTransport.InstallSnapshot wraps the stream in the compressor exactly on the compressSnap edge and Consumer unwraps exactly on the same flag. " +
-			"C10.e ERR: in the snapshot sinks (Sink, FullSink and siblings) and Restore, no error result of a call that moves or persists snapshot bytes (Write, WriteTo, ReadFrom, Sync, Copy, Rename, WriteFile, writeMeta, sidecar, Open/Close of the inner sink) is dropped.",
+			"C10.e ERR: in the snapshot sinks (Sink, FullSink and siblings) and Restore, no error result of a call that moves or persists snapshot bytes (Write, WriteTo, ReadFrom, Sync, Copy, Rename, WriteFile, writeMeta, sidecar, Open/Close of the inner sink) is dropped. " +
+			"C10.f CONST: every file the snapshot packages (snapshot, snapshot/plan, snapshot/sidecar, db/wal) create for writing starts empty — os.Create, or os.OpenFile whose constant flags with O_CREATE also carry O_TRUNC or O_EXCL — so that a retried install cannot keep the tail of an earlier, longer file behind the bytes whose CRC it recorded.",
 		NotCovered: []string{"that CRC32 detects a particular mutation", "byte identity of the installed files (values)"},
 		Run:        runC10,
 	})
@@ -56,6 +57,7 @@ func eqEdges(fn *ssa.Function, x, y func(ssa.Value) bool) map[an.Edge]bool {
 
 func runC10(c *core.Ctx) {
 	c10Errors(c)
+	c10f(c)
 	hdrCRC :=func(v ssa.Value) bool { return an.MentionsField(v, "Header", "Crc32") }
 	if fn := c.Fn("C10.a", "snapshot", "(*FullSink).Close"); fn != nil {
 		succ := map[ssa.Instruction]bool{}
